@@ -346,6 +346,23 @@ func GenRecs(t *rapid.T, s Schema, maxN int, distinctTS bool) []model.Rec {
 			}
 			r.Line = genBS(line)
 			r.Doc = doc
+		case s.Format == "packed":
+			// A promtail-packed entry: {"_entry": <line>, <label>: <string>, ...}
+			entry := plainLine(t, s)
+			if rapid.IntRange(0, 4).Draw(t, "quoted-entry") == 0 {
+				entry = rapid.SampledFrom([]string{`say "hi"`, `{"json":"inside"}`, `back\\slash`, "_entry", `^{`}).Draw(t, "entrytext") + " " + entry
+			}
+			obj := model.JV{K: "obj"}
+			for _, f := range s.Fields {
+				if v, ok := drawValue(t, f, "f-"+f.Name); ok {
+					obj.Obj = append(obj.Obj, model.JField{Key: f.Name, Val: model.JV{K: "str", S: v}})
+				}
+			}
+			at := rapid.IntRange(0, len(obj.Obj)).Draw(t, "entry-at")
+			ef := model.JField{Key: "_entry", Val: model.JV{K: "str", S: entry}}
+			obj.Obj = append(obj.Obj[:at], append([]model.JField{ef}, obj.Obj[at:]...)...)
+			r.Line = genBS(obj.Render())
+			r.Doc = &model.Doc{Format: "packed", JSON: &obj}
 		case s.Format == "delim":
 			vals := map[string]string{}
 			for _, f := range s.Fields {
